@@ -476,8 +476,37 @@ func lemmaTickMonotone(intervalStart uint64, intervalsPerDay uint32, t1, t2 uint
 //@ modifies ghost:primaryDirty
 //@ ensures !fileContentError(result)
 
+// C09: the variable-length append sorts the merged records (old block + new rows) by their interval ticks before it
+// writes them back. The sorter must cover the whole merged buffer: as many records as the buffer holds.
+//@ func NewByIntervalTicks
+//@ props C09
+//@ requires #recLen: recordLength > 0
+//@ requires #coversBuffer: numWords == len(buffer)/recordLength
+
+//@ func sort.Stable
+//@ trusted "stdlib: permutes the records of the sorter's buffer (calls Less/Swap of the sorter)"
+//@ modifies mem:uint8
+
+//@ func github.com/golang/snappy.Decode
+//@ trusted "snappy: returns a new slice or an error"
+//@ modifies none
+
+//@ func github.com/golang/snappy.Encode
+//@ trusted "snappy: returns a new slice"
+//@ modifies none
+
+//@ func @/utils/io.SwapSliceByte
+//@ trusted "unsafe/reflect re-typing of a byte slice"
+//@ modifies none
+
+//@ func @/utils/io.SwapSliceData
+//@ trusted "unsafe/reflect re-typing of a slice"
+//@ modifies none
+
 //@ func WriteBufferToFileIndirect
-//@ trusted "variable-length append: reads the interval's index record and old compressed block back (seek, read, snappy decode), writes the merged block and the new index record; an unreadable or undecodable old block is reported as a plain error"
+//@ props C09
+//@ option noimplicit
+//@ assumepre executor.NewByIntervalTicks.recLen "catalog invariant: the variable record length of a bucket is positive"
 //@ modifies ghost:primaryDirty
 
 
